@@ -403,3 +403,106 @@ func genC10Hist(tier string, rng *Rng) []Case {
 	}
 	return out
 }
+
+// ---------- C05: one complete, well-formed response mirroring the origin ----------
+
+var c05Statuses = []int{200, 201, 202, 204, 206, 226, 300, 301, 302, 303, 304, 307, 308, 400, 401, 403, 404, 405, 409, 410, 418, 429, 451, 499, 500, 501, 502, 503, 504, 511, 599}
+
+func genC05(tier string, rng *Rng) []Case {
+	var out []Case
+	n := 500
+	if tier == "thorough" {
+		n = 8000
+	}
+	sizes := []int{0, 1, 7, 1000, 32*1024 - 1, 32 * 1024, 32*1024 + 1, 70000}
+	for i := 0; i < n; i++ {
+		g := &histGen{rng: rng}
+		rule := Rule{Enabled: true, Path: "/c/*", Dest: "http://origin.test/o/$1", Type: 1}
+		if rng.Chance(65, 100) {
+			rule.Cache = "c1"
+		}
+		if rng.Chance(30, 100) {
+			rule.RespHdrs = []KV{{"X-Edge", "1"}}
+			if rng.Chance(30, 100) {
+				rule.RespHdrs = append(rule.RespHdrs, KV{"X-Custom", "from-rule"})
+			}
+		}
+		var st int
+		if tier == "thorough" && rng.Chance(50, 100) {
+			st = 200 + rng.Intn(400)
+		} else {
+			st = c05Statuses[rng.Intn(len(c05Statuses))]
+		}
+		size := sizes[rng.Intn(len(sizes))]
+		if rng.Chance(70, 100) && size > 1000 {
+			size = sizes[rng.Intn(4)]
+		}
+		body := bigBody(size)
+		if st == 204 || st == 304 {
+			body = ""
+		}
+		hdrs := []KV{{"Content-Type", rng.Pick([]string{"text/plain", "application/json", "application/octet-stream"})}}
+		if rng.Chance(70, 100) {
+			hdrs = append(hdrs, KV{"Content-Length", fmt.Sprint(len(body))})
+		}
+		if rng.Chance(50, 100) {
+			hdrs = append(hdrs, KV{"Cache-Control", rng.Pick([]string{"max-age=60", "no-store", "private, max-age=10", "public", "max-age=0"})})
+		}
+		if rng.Chance(40, 100) {
+			hdrs = append(hdrs, KV{"X-Custom", "v1"})
+			if rng.Chance(40, 100) {
+				hdrs = append(hdrs, KV{"X-Custom", "v2"})
+			}
+		}
+		if rng.Chance(30, 100) {
+			hdrs = append(hdrs, KV{"Set-Cookie", "a=1; Path=/"}, KV{"Set-Cookie", "b=2"})
+		}
+		if rng.Chance(30, 100) {
+			hdrs = append(hdrs, KV{"Etag", "\"e1\""})
+		}
+		if st >= 300 && st < 400 && st != 304 && rng.Chance(80, 100) {
+			hdrs = append(hdrs, KV{"Location", "http://elsewhere.test/next"})
+		}
+		g.script(Behaviour{Status: st, Hdrs: hdrs, Body: body})
+		m := rng.Pick([]string{"GET", "GET", "GET", "HEAD", "POST"})
+		req := Req{Method: m, Host: "client.test", Target: "/c/x"}
+		if m == "POST" {
+			req.Body = "b"
+		}
+		g.ops = append(g.ops, Op{Kind: "req", Req: req})
+		if rng.Chance(60, 100) { // warm: the same request again
+			g.adv(1)
+			g.ops = append(g.ops, Op{Kind: "req", Req: req})
+		}
+		out = append(out, mkCacheCase([]Rule{rule}, g.ops, nil))
+	}
+	// requests rrrouter must answer by itself
+	hosts := []string{"[abc", "[", "a:b:c", "%zz", "h1:x", "]", "client.test"}
+	for i := 0; i < n/5; i++ {
+		g := &histGen{rng: rng}
+		rule := Rule{Enabled: true, Path: "/c/*", Dest: "http://origin.test/o/$1", Type: 1, Internal: rng.Chance(30, 100)}
+		if rng.Chance(50, 100) {
+			rule.Cache = "c1"
+		}
+		var secrets *[]string
+		if rule.Internal || rng.Chance(30, 100) {
+			secrets = &[]string{"s1"}
+		}
+		req := Req{Method: rng.Pick([]string{"GET", "POST", "HEAD"}), Host: rng.Pick(hosts), Target: rng.Pick([]string{"/c/x", "/nomatch", "/c/x?y=1"})}
+		switch rng.Intn(4) {
+		case 0:
+			req.Hdrs = append(req.Hdrs, KV{"Richie-Routing-Secret", "wrong"})
+		case 1:
+			req.Hdrs = append(req.Hdrs, KV{"Richie-Request-ID", "cid"})
+		}
+		if rng.Chance(40, 100) {
+			g.script(Behaviour{Err: true})
+		} else {
+			g.script(okResp("fine"))
+		}
+		g.ops = append(g.ops, Op{Kind: "req", Req: req})
+		c := CacheCase{Secrets: secrets, Retries: rng.Intn(2), Rules: []Rule{rule}, Caches: []string{"c1"}, Base: cacheBase, Ops: g.ops}
+		out = append(out, cacheCase{c})
+	}
+	return out
+}
